@@ -213,7 +213,11 @@ pub fn feed(scheme: &Scheme, spec: &SchemeSpec, sid: usize, text: &str) -> Value
     let ffi = catch_unwind(AssertUnwindSafe(|| {
         let fctx = mk();
         let mut w: wirefilter_ffi::ExecutionContext<'_> = fctx.into();
-        let ok = wirefilter_ffi::wirefilter_deserialize_json_to_execution_context(&mut w, text_owned.as_ptr(), text_owned.len());
+        // the caller's buffer does not outlive the call
+        let mut buf: Vec<u8> = text_owned.as_bytes().to_vec();
+        let ok = wirefilter_ffi::wirefilter_deserialize_json_to_execution_context(&mut w, buf.as_ptr(), buf.len());
+        buf.iter_mut().for_each(|b| *b = b'#');
+        drop(buf);
         let inner: ExecutionContext<'_> = w.into();
         // re-own with 'static data for abs()
         (ok, inner.clone_with(()))
